@@ -181,3 +181,4 @@ MANIFEST = {
     'note': 'Trusted: the grammar of DESIGN.md section 1 (text outside it is never generated); '
             'the writer refmodel.render.',
 }
+MANIFEST['text'] += (' ' + 'Whitespace noise includes every ASCII character str.split() treats as blank (form feed, vertical tab, FS/GS/RS/US) and CRLF line ends.')
